@@ -13,7 +13,7 @@ PROPS_FILE = 'ScnVerif/Props/C12.lean'
 TRANSLATORS = [tr_sqw.translate]
 RULE = (
     'builder programs: every subset of the five calls (quick: one order each; thorough: all 326 ordered subsets), '
-    'random programs with repeated calls, byte order native/little/big, BytesIO and real files (nested directories, '
+    'random programs with repeated calls, byte order native/little/big, BytesIO and real files (nested directories, output-target histories: a path that already holds a larger / smaller / equally long file, a file written before by another builder program, a replaced directory entry; a BytesIO already holding data, positioned at 0 or at its end, '
     'file names up to 200 chars), titles/paths/labels of length 0..300, 0..1e5 pixels, add_pixel_data with the nine default rows or a custom selection of 1..12 rows (reordered, repeated, custom stored units) and coordinates of dtype float64/float32/int64/int32, chunk sizes from '
     '{1,2,3,8,9,10,npix-1,npix,npix+1,8192,1e5}, 1..20 runs. Every case is built with the real SqwBuilder; files up to '
     '160 kB are decoded by the Lean decoder and re-encoded by the Lean builder model (bytes must be identical), all '
